@@ -56,8 +56,13 @@ class Flat(object):
         return range(i, self.E[i]['end'])
 
 
+WRAPPER = 'xxxblank'      # INVISIBLE_ROOT_TAG: a document with several roots is a tree under this element
+
+
 def render(n):
     tag, attrs, classes, (pre, post), kids = n
+    if tag == WRAPPER:
+        return ''.join(render(k) for k in kids)
     parts = ['%s="%s"' % (k, v) for k, v in attrs]
     if classes:
         parts.append('class="%s"' % ' '.join(classes))
@@ -377,6 +382,13 @@ def expected(flat, recv, op):
             f = lambda d: any(ref_crit(c, d) for c in op[2])
     else:
         raise ValueError(op)
+    if rk == 'P' and E[0]['tag'] == WRAPPER and scope and scope[0] == 0:
+        # several roots: getAllNodes / getRootNodes skip the invisible wrapper (filter*); for the getElements* forms
+        # the property does not say whether the invisible element counts — skipped when it would match
+        if k == 'filter':
+            scope = scope[1:]
+        elif f(E[0]):
+            return None
     hits = [i for i in scope if f(E[i])]
     if k in ('id', 'first'):
         return ['one', hits[0]] if hits else ['none']
@@ -785,6 +797,20 @@ class Check(PropCheck):
         ids_mode = 'unique' if rng.random() < 0.75 else 'reused'
         voc = {'tags': TAGS if rng.random() < 0.6 else TAGS[:2], 'classes': CLASSES if rng.random() < 0.6 else CLASSES[:2]}
         doc = rand_doc(rng, size, ids_mode, voc)
+        if size >= 2 and rng.random() < 0.12:
+            # several roots: the children of the generated root become the roots (text outside the roots dropped)
+            doc = [WRAPPER, [], [], ['', ''], doc[4] if len(doc[4]) >= 2 else [doc, rand_doc(rng, rng.randint(1, 3), 'none', voc)]]
+            if ids_mode == 'unique':
+                k = [0]
+
+                def relabel(n):
+                    n[1] = [a for a in n[1] if a[0] != 'id']
+                    if n[0] != WRAPPER and rng.random() < 0.8:
+                        n[1].append(['id', 'e%d' % k[0]])
+                    k[0] += 1
+                    for c in n[4]:
+                        relabel(c)
+                relabel(doc)
         flat = Flat(doc)
         qs = []
         for _ in range(rng.randint(8, 24)):
@@ -822,6 +848,8 @@ class Check(PropCheck):
                 k += 1
             depth = max(depth, k)
         fs.add('depth:' + ('0-1' if depth <= 1 else '2-3' if depth <= 3 else '4+'))
+        if flat.E[0]['tag'] == WRAPPER:
+            fs.add('several-roots')
         for (r, o), e in zip(d['queries'], exp):
             rk = 'P-root=' if (r[0] == 'P' and len(r) > 1) else r[0]
             fs.add('recv:' + rk)
